@@ -74,3 +74,9 @@ pub use swimos_introspection::IntrospectionConfig;
 use swimos_utilities::byte_channel::{ByteReader, ByteWriter};
 
 type Io = (ByteWriter, ByteReader);
+
+/// Re-exports of internal components for external runtime-verification harnesses. Off by default.
+#[cfg(feature = "verif_hooks")]
+pub mod verif_hooks {
+    pub use crate::in_memory_store::{InMemoryNodePersistence, InMemoryPlanePersistence};
+}
